@@ -29,7 +29,7 @@ Proof.
   replace (read_uchunk_min_fields _ _ _) with false by (unfold read_uchunk_min_fields; reflexivity).
   rewrite read_uspan_uspan by (destruct Hv as [Hv|[Hv _]]; [left; exact Hv | right; exact Hv]).
   rewrite read_uspan_uspan by (destruct Hv as [Hv|[_ Hv]]; [left; exact Hv | right; exact Hv]).
-  rewrite read_body_edits. reflexivity.
+  rewrite read_body_edits. unfold norm_chunk. rewrite <- uchunk_of_ranges. reflexivity.
 Qed.
 
 Lemma read_git_chunks_all v cs : forall c acc fuel rest,
